@@ -121,6 +121,11 @@ func (tb *LTable) Remove(pos int) LValue {
 		return LNil
 	}
 	larray := len(tb.array)
+	for larray > 0 && tb.array[larray-1] == LNil {
+		// trailing nils (left behind by t[#t] = nil) are not elements of the list
+		larray--
+	}
+	tb.array = tb.array[:larray]
 	if larray == 0 {
 		return LNil
 	}
